@@ -178,7 +178,14 @@ func main() {
 					tail := tailFile(errf, 6000)
 					a.mu.Lock()
 					if code == 124 || code == 137 {
-						a.inconcl = append(a.inconcl, fmt.Sprintf("case %d: watchdog expired (%ds)", dead, tmo))
+						full, _ := os.ReadFile(errf)
+						if site, dl := fw.ClassifyHang(string(full)); dl {
+							sig := "deadlock/" + site
+							a.viol[sig] = append(a.viol[sig], violRec{Idx: dead, Detail: "a harness call into the library has been blocked for minutes and no library goroutine can run any more (goroutine dump at the watchdog):\n" + cutStr(string(full), 5000)})
+							a.evals++
+						} else {
+							a.inconcl = append(a.inconcl, fmt.Sprintf("case %d: watchdog expired (%ds)", dead, tmo))
+						}
 					} else {
 						a.deaths++
 						sig := "child-died/" + fw.PanicSite(tail)
